@@ -24,6 +24,7 @@ pub fn cfg() -> Cfg {
         pool: 5,
         max_decls: 7,
         max_modules: 4,
+        shadow_pct: 15,
         ..Cfg::default()
     }
 }
@@ -198,6 +199,12 @@ fn negative(p: &Program, rng: &mut Rng) -> Option<(Program, &'static str, Vec<(u
         }
         used.sort();
         used.dedup();
+        // a name that a shadow module also declares under the same qualifier stays bound when its declaration goes
+        used.retain(|d| {
+            !p.decls
+                .iter()
+                .any(|o| o.name == p.decls[*d].name && p.modules[o.module].file.ends_with("zshadow.oal"))
+        });
         if used.is_empty() {
             return None;
         }
